@@ -1,6 +1,7 @@
 //! Shared pieces of the verification harness: enum listings (generated), Coq renderers,
 //! a seeded PRNG and a recording follower.
 pub mod enums_gen;
+pub mod gen;
 use purr::feature::*;
 use purr::graph::{Atom, Bond};
 use purr::walk::Follower;
@@ -21,9 +22,9 @@ pub fn coq_kind(k: &AtomKind) -> String {
     }
 }
 pub fn coq_bk(k: &BondKind) -> String { format!("BK_{:?}", k) }
-pub fn coq_rnum(r: &Rnum) -> String { format!("Rn_{:?}", r) }
+pub fn coq_rnum(r: &Rnum) -> String { format!("{}%N", gen::rnum_number(r)) }
 pub fn coq_atom(a: &Atom) -> String {
-    format!("(mkA {} [{}])", coq_kind(&a.kind), a.bonds.iter().map(|b| format!("({}, {})", coq_bk(&b.kind), b.tid)).collect::<Vec<_>>().join("; "))
+    format!("(mkA {} [{}])", coq_kind(&a.kind), a.bonds.iter().map(|b| format!("({}, {}%nat)", coq_bk(&b.kind), b.tid)).collect::<Vec<_>>().join("; "))
 }
 pub fn coq_graph(g: &[Atom]) -> String { format!("[{}]", g.iter().map(coq_atom).collect::<Vec<_>>().join("; ")) }
 
@@ -33,7 +34,7 @@ pub enum Ev { Root(AtomKind), Extend(BondKind, AtomKind), Join(BondKind, Rnum), 
 pub fn coq_ev(e: &Ev) -> String {
     match e {
         Ev::Root(k) => format!("ERoot {}", coq_kind(k)), Ev::Extend(b, k) => format!("EExtend {} {}", coq_bk(b), coq_kind(k)),
-        Ev::Join(b, r) => format!("EJoin {} {}", coq_bk(b), coq_rnum(r)), Ev::Pop(n) => format!("EPop {}", n),
+        Ev::Join(b, r) => format!("EJoin {} {}", coq_bk(b), coq_rnum(r)), Ev::Pop(n) => format!("EPop {}%nat", n),
     }
 }
 pub fn coq_evs(h: &[Ev]) -> String { format!("[{}]", h.iter().map(coq_ev).collect::<Vec<_>>().join("; ")) }
@@ -87,3 +88,6 @@ pub fn guarded<T>(f: impl FnOnce() -> T) -> Result<T, String> {
         if let Some(s) = e.downcast_ref::<&str>() { s.to_string() } else if let Some(s) = e.downcast_ref::<String>() { s.clone() } else { "panic".into() }
     })
 }
+
+pub fn coq_text(s: &str) -> String { format!("[{}]%N", s.chars().map(|c| (c as u32).to_string()).collect::<Vec<_>>().join("; ")) }
+pub fn coq_opt_range(o: Option<std::ops::Range<usize>>) -> String { match o { Some(r) => format!("Some ({}, {})%nat", r.start, r.end), None => "None".into() } }
